@@ -731,6 +731,144 @@ Proof.
       intros Hv. destruct Hh as (_ & _ & _ & _ & _ & _ & [(Hv2 & _)|(_ & _ & Hc)]); [congruence|discriminate].
 Qed.
 
+(* what a kernel call returns, whatever the budgets: j records committed, and why it stopped *)
+Definition KOut (k:nat) (base:Z) (out:fout) : Prop :=
+  exists j:nat, (j <= k)%nat /\ f_rows out = Z.of_nat j /\ Z.of_nat j <= maxrow /\
+    f_next out = base + len (render_file (firstn j rows)) /\
+    GoodL (fun _ => Z.of_nat j) (f_inds out) (f_vals out) /\
+    ((f_vfull out = true /\ f_ifull out = false /\ 0 <= f_vfc out < ncols /\
+      bud (f_vfc out) <= len (CB rows (f_vfc out)) /\ f_next out < len src)
+     \/ (f_vfull out = false /\ f_ifull out = true /\ Z.of_nat j = maxrow)
+     \/ (f_vfull out = false /\ f_ifull out = false /\ j = k)).
+
+Lemma Fin_KOut k j base s : (j <= k)%nat -> Fin (Z.of_nat j) (base + len (render_file (firstn j rows)) - 1) s ->
+  (s_vfull s = false -> s_ifull s = false -> j = k) -> KOut k base (out_of s).
+Proof.
+  intros Hj (H1 & H2 & H3 & H4 & H5 & H6 & H7) Hall. exists j. unfold out_of.
+  cbn [f_next f_rows f_ifull f_vfull f_vfc f_inds f_vals]. split; [exact Hj|]. split; [exact H4|]. split; [exact H5|].
+  split; [rewrite H3; lia|]. split; [exact H6|].
+  destruct H7 as [(A & B & C0 & D & E)|[(A & B & C0)|(A & B & C0)]].
+  - left. rewrite H3. repeat split; try assumption; lia.
+  - right. left. auto.
+  - right. right. auto.
+Qed.
+
+Lemma skip_ws0_stay' n i x t : 0 <= i -> suf src i = x :: t -> x <> WS -> skip_ws0 n src i = Ok i.
+Proof.
+  intros Hi H Hx. destruct (suf_cons src i x t Hi H) as (Hlt & _ & _ & Hg).
+  assert (E : (i <? len src) = true) by (apply Z.ltb_lt; lia).
+  assert (Ex : (x =? WS) = false) by (apply Z.eqb_neq; exact Hx).
+  destruct n; cbn [skip_ws0]; rewrite E, Hg; cbn [bind]; rewrite Ex; reflexivity.
+Qed.
+
+Lemma file_cut_nonnil k p : (k <= length rows)%nat -> (k <> 0%nat \/ p <> []) -> render_file (firstn k rows) ++ p <> [].
+Proof.
+  intros Hk Hne E. apply app_eq_nil in E. destruct E as (E1 & E2). destruct Hne as [Hne|Hne]; [|contradiction].
+  destruct k; [contradiction|]. destruct rows as [|r0 rows']; [cbn in Hk; lia|].
+  cbn [firstn] in E1. rewrite render_file_cons in E1. apply app_eq_nil in E1. destruct E1 as (E1 & _). apply (render_row_nonnil _ E1).
+Qed.
+
+(* the kernel re-entered (or entered without header) at byte i0, the first byte of a record *)
+Theorem kernel_gen_nohdr (k:nat) i0 inds vals p :
+  (k <= length rows)%nat -> 0 <= i0 <= len src ->
+  suf src i0 = render_file (firstn k rows) ++ p -> cutp k p ->
+  shape ncols w inds -> (forall c, 0 <= c < ncols -> I2 inds c 0 = 0) -> len vals = V ->
+  exists out, fast_csv_reader (fsm_fuel src i0) src i0 inds vals offs false = Ok out /\ KOut k i0 out.
+Proof.
+  intros Hk Hi0 H Hcut Hsh H0 Hv.
+  assert (HG0 : GoodL (fun _ => 0) inds vals) by (apply GoodL_init; assumption).
+  unfold fast_csv_reader, fsm_init. cbn [Z.leb Z.compare bind].
+  rewrite (get2_ok 9 ncols w) by (try assumption; unfold w; lia). cbn [bind].
+  replace (fst inds - 1) with maxrow by (destruct Hsh as (Hf & _); unfold w in Hf; lia).
+  assert (Hcase : (k = 0%nat /\ p = []) \/ (k <> 0%nat \/ p <> [])).
+  { destruct k; [|right; left; discriminate]. destruct p; [left; auto|right; right; discriminate]. }
+  destruct Hcase as [(Ek & Ep)|Hne].
+  - subst k p. cbn [firstn render_file map concat app] in *.
+    assert (Ei : i0 = len src) by (apply suf_nil_iff in H; lia).
+    assert (Esk : skip_ws0 (length src) src i0 = Ok i0).
+    { destruct (length src); cbn [skip_ws0]; (destruct (i0 <? len src) eqn:E; [apply Z.ltb_lt in E; lia|reflexivity]). }
+    rewrite Esk. cbn [bind]. rewrite getZ_ok by lia. cbn [bind s_index]. rewrite Ei, Z.eqb_refl.
+    eexists. split; [reflexivity|]. exists 0%nat. cbn [f_next f_rows f_ifull f_vfull f_inds f_vals s_row firstn render_file map concat].
+    replace (len (@nil Z)) with 0 by reflexivity.
+    split; [lia|]. split; [reflexivity|]. split; [cbn; lia|]. split; [lia|]. split; [exact HG0|]. right. right. auto.
+  - pose proof (nows_file_app' (firstn k rows) p (Forall_firstn_ _ k rows Hrect) (nows_cutp k p Hcut)) as Hnw.
+    pose proof (file_cut_nonnil k p Hk Hne) as Hnn.
+    destruct (render_file (firstn k rows) ++ p) as [|x0 t0] eqn:E0; [contradiction|].
+    cbn [nows] in Hnw. destruct (suf_cons src i0 x0 t0 ltac:(lia) H) as (Hlt0 & _).
+    rewrite (skip_ws0_stay' _ i0 x0 t0) by (try lia; assumption). cbn [bind].
+    rewrite getZ_ok by lia. cbn [bind s_index].
+    destruct (i0 =? len src) eqn:El; [apply Z.eqb_eq in El; lia|].
+    rewrite <- E0 in H.
+    destruct (run_rows_g k 0 i0 (i0 - 1) inds vals p ltac:(lia) ltac:(lia) ltac:(lia) eq_refl H Hne Hcut HG0) as (j & s & Hj & R & HF & Hall).
+    assert (Est : mkSt i0 (i0 - 1) 0 0 (-1) false false 0 (I2 inds 0 0) i0 false false 0 (nthZ offs 1) inds vals =
+                  cstate i0 (i0 - 1) 0 0 inds vals).
+    { unfold CsvRows.cstate. rewrite Hoffs0. replace (0 + 1) with 1 by lia. f_equal. lia. }
+    rewrite Est. cbn [Nat.add skipn] in HF. change (Z.of_nat 0) with 0 in R. pose proof HF as (Hle & Hstop & _).
+    rewrite (reaches_loop src offs maxrow _ s i0 R Hstop Hle) by (unfold CsvRows.cstate; cbn [s_index]; lia).
+    eexists. split; [reflexivity|]. apply (Fin_KOut k j i0 s Hj HF Hall).
+Qed.
+
+(* the first call: header line, then records *)
+Theorem kernel_gen_hdr hdr (k:nat) inds vals p :
+  (k <= length rows)%nat -> len hdr = ncols ->
+  src = render_row hdr ++ render_file (firstn k rows) ++ p -> cutp k p ->
+  shape ncols w inds -> (forall c, 0 <= c < ncols -> I2 inds c 0 = 0) -> len vals = V ->
+  exists out, fast_csv_reader (fsm_fuel src 0) src 0 inds vals offs true = Ok out /\ KOut k (len (render_row hdr)) out.
+Proof.
+  intros Hk Hhdr Hsrc Hcut Hsh H0 Hv.
+  assert (HG0 : GoodL (fun _ => 0) inds vals) by (apply GoodL_init; assumption).
+  assert (Hhdr_ne : hdr <> []) by (intros ->; unfold len in Hhdr; cbn in Hhdr; lia).
+  assert (Hsuf : suf src 0 = render_row hdr ++ (render_file (firstn k rows) ++ p)) by (rewrite suf_0; exact Hsrc).
+  pose proof (nows_file_app' (firstn k rows) p (Forall_firstn_ _ k rows Hrect) (nows_cutp k p Hcut)) as Hnw.
+  pose proof (nows_render_row hdr (render_file (firstn k rows) ++ p) Hhdr_ne) as Hnw0.
+  destruct (render_row hdr ++ render_file (firstn k rows) ++ p) as [|x0 t0] eqn:E0.
+  { destruct (render_row_nonnil hdr). destruct (render_row hdr); [reflexivity|discriminate]. }
+  cbn [nows] in Hnw0.
+  destruct (suf_cons src 0 x0 t0 ltac:(lia) Hsuf) as (Hlt0 & _).
+  rewrite <- E0 in Hsuf.
+  unfold fast_csv_reader, fsm_init. cbn [Z.leb Z.compare bind].
+  replace (fst inds - 1) with maxrow by (destruct Hsh as (Hf & _); unfold w in Hf; lia).
+  rewrite (skip_ws0_stay' _ 0 x0 t0) by (try lia; try assumption; rewrite Hsuf, E0; reflexivity). cbn [bind].
+  rewrite getZ_ok by lia. cbn [bind s_index].
+  destruct (0 =? len src) eqn:El; [apply Z.eqb_eq in El; lia|].
+  destruct (run_header_cells src offs maxrow ncols Hoffs Hncols Hmaxrow inds vals Hsh hdr 0 0 (0 - 1) 0 0 (nthZ offs 1)
+              (render_file (firstn k rows) ++ p) Hhdr_ne ltac:(lia) ltac:(lia) ltac:(lia) Hsuf Hnw)
+    as (n1 & s_pre1 & R1 & Hfin1).
+  pose proof (len_nonneg (render_row hdr)) as Hlh. rewrite Z.add_0_l in Hfin1.
+  set (i1 := len (render_row hdr)) in *.
+  assert (Hrow0 : row0 offs inds vals i1 = cstate i1 (i1 - 1) 0 0 inds vals).
+  { unfold row0, CsvRows.cstate. replace (0 + 1) with 1 by lia. reflexivity. }
+  rewrite Hrow0 in Hfin1.
+  pose proof (suf_app_len src 0 _ _ ltac:(lia) Hsuf) as Hs1. rewrite Z.add_0_l in Hs1. fold i1 in Hs1.
+  assert (Hlsrc : len src = i1 + len (render_file (firstn k rows) ++ p)).
+  { rewrite (suf_full src 0 _ ltac:(lia) Hsuf) by (rewrite E0; discriminate). rewrite len_app. unfold i1. lia. }
+  assert (Hcase : (k = 0%nat /\ p = []) \/ (k <> 0%nat \/ p <> [])).
+  { destruct k; [|right; left; discriminate]. destruct p; [left; auto|right; right; discriminate]. }
+  assert (Hfinal : exists (j:nat) s, (j <= k)%nat /\
+             reaches (mkSt 0 (0 - 1) 0 (-1) (-1) false false 0 0 0 false false 0 (nthZ offs 1) inds vals) s /\
+             Fin (Z.of_nat j) (i1 + len (render_file (firstn j rows)) - 1) s /\ (s_vfull s = false -> s_ifull s = false -> j = k)).
+  { destruct Hcase as [(Ek & Ep)|Hne].
+    - subst k p. cbn [firstn render_file map concat app] in *.
+      assert (Ei : i1 = len src) by (rewrite Hlsrc; replace (len (@nil Z)) with 0 by reflexivity; lia).
+      exists 0%nat. eexists. split; [lia|]. split; [exists n1, s_pre1; split; [exact R1|exact Hfin1]|].
+      cbn [firstn render_file map concat]. replace (len (@nil Z)) with 0 by reflexivity.
+      split; [|intros; reflexivity].
+      unfold Fin, stops, CsvRows.cstate. cbn [s_index s_eol s_row s_ifull s_vfull s_vfc s_inds s_vals].
+      split; [lia|]. split; [rewrite Ei, Z.eqb_refl; reflexivity|]. split; [lia|]. split; [reflexivity|].
+      split; [cbn; lia|]. split; [exact HG0|]. right. right. auto.
+    - destruct (run_rows_g k 0 i1 (i1 - 1) inds vals p ltac:(lia) ltac:(lia) ltac:(lia) eq_refl Hs1 Hne Hcut HG0) as (j & s & Hj & R & HF & Hall).
+      cbn [Nat.add skipn] in HF. change (Z.of_nat 0) with 0 in R.
+      exists j, s. split; [exact Hj|]. split; [|split; [exact HF|exact Hall]].
+      eapply reaches_trans; [exists n1, s_pre1; split; [exact R1|exact Hfin1]| |exact R].
+      unfold noexit, CsvRows.cstate. cbn [s_index s_ifull s_vfull].
+      pose proof (file_cut_nonnil k p Hk Hne) as Hnn.
+      destruct (render_file (firstn k rows) ++ p) as [|x1 t1] eqn:E1; [contradiction|].
+      destruct (suf_cons src i1 x1 t1 ltac:(lia) Hs1) as (Hlt & _). repeat split; lia. }
+  destruct Hfinal as (j & s & Hj & R & HF & Hall). pose proof HF as (Hle & Hstop & _).
+  rewrite (reaches_loop src offs maxrow _ s 0 R Hstop Hle) by (cbn [s_index]; lia).
+  eexists. split; [reflexivity|]. apply (Fin_KOut k j i1 s Hj HF Hall).
+Qed.
+
 End DataG.
 
 End Gen.
